@@ -887,6 +887,29 @@ package leveldb
 //@   safety off
 //@   ensures [C07:version-reference-given-back] calls("(*version).release") - old(calls("(*version).release")) == calls("(*session).version") - old(calls("(*session).version"))
 
+// C06 / C01 / C04: the flushed write buffer becomes one table; the level asked for is asked for THIS table's key
+// range, and the table is recorded at the level answered (with its own number, size and bounds).
+//@ func (*session).flushMemdb
+//@   props C06 C01
+//@   abstract keys
+//@   safety off
+//@   at before call (*session).pickMemdbLevel#1
+//@     assert [C01,C06:level-is-chosen-for-the-new-tables-own-range] krank(arg0) == krank(ukeyof(t.imin)) && krank(arg1) == krank(ukeyof(t.imax)) && arg2 == maxLevel
+//@   at before call (*sessionRecord).addTableFile#1
+//@     assert [C01,C06:table-recorded-at-the-level-chosen] arg0 == flushLevel && arg1 == t
+//@ func (*session).pickMemdbLevel
+//@   props C06 C01
+//@   abstract keys
+//@   safety off
+//@   at before call (*version).pickMemdbLevel#1
+//@     assert [C01,C06:question-passed-on-unchanged] krank(arg0) == krank(umin) && krank(arg1) == krank(umax) && arg2 == maxLevel
+//@ func (*sessionRecord).addTableFile
+//@   props C06 C01
+//@   abstract keys
+//@   safety off
+//@   at before call (*sessionRecord).addTable#1
+//@     assert [C01,C06:record-carries-the-tables-own-number-size-and-bounds] arg0 == level && arg1 == t.fd.Num && arg2 == t.size && ikcmp(arg3, t.imin) == 0 && ikcmp(arg4, t.imax) == 0
+
 // C06 / C01: where a flushed write buffer goes. The level chosen and every level above it hold no table that
 // overlaps the new table's user-key range: the new table stays disjoint from its level, and nothing older ends up
 // above it. That the levels below the top are sorted and disjoint is the induction hypothesis.
